@@ -47,6 +47,7 @@ pub fn spec(prop: &str) -> Option<Spec> {
         "C15" => s("C15", Engine::Map, (400_000, 150_000), (20_000_000, 8_000_000), "seeded edit histories (insert, remove, change, clear, refill, no-op write, unobserve/re-observe) for each diff-based operator x map type; non-trivial = the operator was re-observed after edits, or its input was emptied or refilled; distinct = distinct (operator, map type, per-round user-function call pattern)"),
         "C16" => s("C16", Engine::Map, (300_000, 100_000), (15_000_000, 5_000_000), "seeded edit histories for incr_(filter_)mapi_(_cutoff) on BTreeMap and OrdMap with five per-key function families and an outer variable; non-trivial = re-observed after edits, emptied or refilled; distinct = distinct (operator, map type, per-round call pattern)"),
         "C17" => s("C17", Engine::Map, (400_000, 150_000), (20_000_000, 8_000_000), "seeded edit histories with instrumented user functions logging (round, key, role); non-trivial = a round whose diff was a strict non-empty subset of the keys; distinct = distinct (operator, map type, per-round call pattern)"),
+        "C19" => s("C19", Engine::Limits, (300_000, 100_000), (15_000_000, 5_000_000), "seeded histories of chains and binds with heights around the limit N, run under new_with_height(N) and under a reconfiguration to N at a seeded quiescent point, each compared with a twin run under a very large limit; plus misuse (cycle through one or two binds, cross-state node, nested stabilise from a node function or a handler) injected at a seeded point; non-trivial = the limit was hit, or a reconfiguration happened, or a misuse was injected; distinct = distinct (N, misuse kind, action/outcome sequence)"),
         "C20" => s("C20", Engine::Core, (600_000, 200_000), (30_000_000, 10_000_000), "seeded core histories with memoised constructors called from top level and from bind closures; non-trivial = a memoised call hit a live node and another call re-created a dropped one; distinct = distinct recompute-order sequence"),
         _ => return None,
     })
@@ -187,6 +188,7 @@ pub fn trigger(prop: &str, out: &RunOutput) -> bool {
         "C14" => c.bind_switches > 0 || c.reobserved > 0,
         "C15" | "C16" => c.reobserved > 0 || c.bind_switches > 0,
         "C17" => c.may_run_only > 0,
+        "C19" => c.bind_switches > 0 || c.reobserved > 0,
         "C20" => c.memo_hits > 0 && c.memo_recreated > 0,
         _ => true,
     }
